@@ -68,7 +68,21 @@ func genHistory(r *rand.Rand, g *wsclient.Gen, seed int64) *history {
 	if r.Intn(2) == 0 {
 		h.Cfg.WriteThenReadUS = 500 + r.Intn(2500)
 	}
-	for _, c := range []string{"n", "s", "obj", "items", "plain", "nums", "grid", "ku", "pu", "kulist", "ulist", "slow", "exp", "boom", "kids:0", "kids:1"} {
+	// middlewares: counts that leave spare capacity in the slice conn.Use
+	// builds (3, 5-7, 9) and counts that do not (0, 1); some pause so that
+	// computations of different subscriptions / mutations overlap inside
+	// the chain
+	for k := []int{0, 1, 3, 3, 5, 6, 7, 9}[r.Intn(8)]; k > 0; k-- {
+		m := wsclient.MwSpec{}
+		if r.Intn(3) == 0 {
+			m.PreUS = 20 + r.Intn(300)
+		}
+		if r.Intn(5) == 0 {
+			m.PostUS = 20 + r.Intn(150)
+		}
+		h.Cfg.Middlewares = append(h.Cfg.Middlewares, m)
+	}
+	for _, c := range []string{"n", "s", "obj", "items", "plain", "nums", "grid", "ku", "pu", "kulist", "ulist", "slow", "exp", "boom", "kids:0", "kids:1", "pick", "item:0", "item:1", "item:2", "item:3"} {
 		if r.Intn(3) == 0 {
 			h.Cfg.Modes[c] = r.Intn(3)
 		}
@@ -154,6 +168,12 @@ func genHistory(r *rand.Rand, g *wsclient.Gen, seed int64) *history {
 				h.Steps = append(h.Steps, wsclient.Step{Kind: "unsub", ID: id})
 			}
 			h.Steps = append(h.Steps, wsclient.Step{Kind: "sync", PauseUS: 2 * d})
+		case x >= 31 && x < 35: // an object with an Expensive field leaves the result, changes, comes back, changes again
+			ops, _ := g.LeaveReturn()
+			for _, op := range ops {
+				// long enough for the re-run and for the old computation's asynchronous release
+				h.Steps = append(h.Steps, wsclient.Step{Kind: "write", Op: op, PauseUS: 2500 + h.Cfg.WriteThenReadUS + h.Cfg.MinRerunUS + r.Intn(2000)})
+			}
 		case x < 28: // unsubscribe of an id that is not live
 			seq++
 			h.Steps = append(h.Steps, wsclient.Step{Kind: "unsub", ID: fmt.Sprintf("u%d", seq), PauseUS: pause(r)})
@@ -302,8 +322,8 @@ func TestCheck(t *testing.T) {
 	log.SetOutput(io.Discard)
 	run := vlib.Start(t, "C02", "exploration")
 	defer run.Finish()
-	run.Rule("histories over one websocket connection (scripted JSONSocket) against a schemabuilder schema over a mutable store: 14-40 steps of subscribe (ids from a pool of 5, reused after unsubscribe; 1-6 fields over scalars, nullable object, keyed lists (nested), unkeyed object/scalar/nested lists, unions with and without key, union lists, slow and Expensive fields), " +
-		"subscribe with a live id, unsubscribe (live / unknown id), mutate (own id namespace), echo, direct writes, write bursts, gate steps (a resolver of an in-flight run is held after AddDependency or after reading while 1-3 further writes, optionally an unsubscribe or a mutation, land), transient resolver failures on re-runs, unsubscribe-all sent a fraction of the write-then-read delay after a write that invalidates an idle subscription (reactive.WriteThenReadDelay is 0 in half of the histories, 0.5-3 ms in the rest), plus 0-2 writes injected at named hook points; case 0 is a pinned history (unsubscribe during an in-flight run, id re-subscribed while the run's own asynchronous close is pending); " +
+	run.Rule("histories over one websocket connection (scripted JSONSocket) against a schemabuilder schema over a mutable store: 14-40 steps of subscribe (ids from a pool of 5, reused after unsubscribe; 1-6 fields over scalars, nullable object, keyed lists (nested), unkeyed object/scalar/nested lists, unions with and without key, union lists, a nullable keyed object, slow and Expensive fields - also on list elements and on the nullable object, with interned source objects so that the reactive cache can hit), " +
+		"subscribe with a live id, unsubscribe (live / unknown id), mutate (own id namespace), echo, direct writes, write bursts, gate steps (a resolver of an in-flight run is held after AddDependency or after reading while 1-3 further writes, optionally an unsubscribe or a mutation, land), leave/change/return/change sequences for one item (out of the keyed list or the nullable object and back), 0/1/3/5/6/7/9 pass-through middlewares registered with conn.Use (some pausing before/after next), transient resolver failures on re-runs, unsubscribe-all sent a fraction of the write-then-read delay after a write that invalidates an idle subscription (reactive.WriteThenReadDelay is 0 in half of the histories, 0.5-3 ms in the rest), plus 0-2 writes injected at named hook points; case 0 is a pinned history (unsubscribe during an in-flight run, id re-subscribed while the run's own asynchronous close is pending); " +
 		"cells notify by Invalidate-and-replace, Strobe, or per-read resources (seeded per cell); seeded pacing and yield-hook perturbation. " +
 		"Non-trivial = >= 2 writes logged while a subscription execution was in flight AND >= 1 non-initial update with a structural delta (reorder / removal / object, list or null replacement). Distinct = step-kind sequence + set of non-initial delta shapes.")
 	run.Assume("store cells follow the discipline AddDependency(resource) then read; writers change the value then Invalidate/Strobe; a resource released by its last dependant is replaced (thunder releases = permanently invalidates it)")
@@ -455,6 +475,32 @@ func runCase(run *vlib.Run, agg *vlib.HitAgg, i int) {
 				run.Violation(i, "", witness(map[string]interface{}{"what": "merge.ts and merge.Merge disagree on the updates of an ended subscription", "instance": inst, "updates": updatesOf(a, inst)}))
 			}
 		}
+		// updates of different computations never mix: after EVERY update the
+		// client state has the top-level shape of this subscription's query
+		// ({"root": {...}}) and, where selected, carries this subscription's tag
+		{
+			var st interface{}
+			for k, u := range ups {
+				nx, err := vlib.MergeTS(st, vlib.DeepCopyJSON(u))
+				if err != nil {
+					break
+				}
+				st = nx
+				m, _ := st.(map[string]interface{})
+				root, _ := m["root"].(map[string]interface{})
+				bad := ""
+				if m == nil || len(m) != 1 || root == nil {
+					bad = "client state is not {\"root\": {...}}"
+				} else if tg, ok := root["tag"]; ok && tg != inst.Tag {
+					bad = fmt.Sprintf("client state carries tag %v, the subscription's tag is %s", tg, inst.Tag)
+				}
+				if bad != "" {
+					run.Violation(i, "", witness(map[string]interface{}{"what": fmt.Sprintf("after update %d of subscription %q the %s: the update belongs to another computation", k+1, inst.ID, bad),
+						"instance": inst, "state": vlib.Trunc(js(st), 1500), "updates": updatesOf(a, inst)}))
+					break
+				}
+			}
+		}
 		for k, u := range ups {
 			if k == 0 {
 				continue
@@ -470,7 +516,33 @@ func runCase(run *vlib.Run, agg *vlib.HitAgg, i int) {
 		run.Count("updates", len(ups))
 	}
 
+	// a mutation's result envelope carries the result of that mutation
+	mutOp := map[string]int{}
+	for _, m := range a.Meta {
+		if m.Type == "mutate" {
+			var op int
+			if _, err := fmt.Sscanf(m.Query, "mutation { apply(op: %d) }", &op); err == nil {
+				mutOp[m.ID] = op
+			}
+		}
+	}
+	for _, e := range a.Events {
+		if e.Kind != wsclient.EvWrite || e.Type != "result" {
+			continue
+		}
+		op, ok := mutOp[e.ID]
+		if !ok {
+			continue
+		}
+		v, err := vlib.MergeTS(nil, vlib.DeepCopyJSON(e.Msg))
+		want := vlib.Canon(map[string]interface{}{"apply": float64(op)})
+		if err != nil || vlib.Canon(v) != want {
+			run.Violation(i, "", witness(map[string]interface{}{"what": fmt.Sprintf("result envelope of mutation %q is not the result of that mutation", e.ID), "envelope": e.String(), "want": want}))
+		}
+	}
+
 	// ---- coverage
+	run.Count(fmt.Sprintf("middlewares:%d", len(h.Cfg.Middlewares)), 1)
 	overlapped, inflight, writes := 0, map[string]int{}, 0
 	for _, e := range a.Events {
 		switch e.Kind {
